@@ -330,6 +330,18 @@ impl<'tcx> Cx<'tcx> {
                         }
                     }
                 }
+                // references to statics: `&STATIC` is a constant pointer to the static's allocation
+                if let mir::Const::Val(mir::ConstValue::Scalar(rustc_middle::mir::interpret::Scalar::Ptr(ptr, _)), _) = c.const_ {
+                    let r = std::panic::catch_unwind(std::panic::AssertUnwindSafe(|| {
+                        match tcx.try_get_global_alloc(ptr.provenance.alloc_id()) {
+                            Some(rustc_middle::mir::interpret::GlobalAlloc::Static(did)) => Some(tcx.def_path_str(did)),
+                            _ => None,
+                        }
+                    }));
+                    if let Ok(Some(p)) = r {
+                        o.push(("static", J::s(p)));
+                    }
+                }
                 if o.len() == 1 {
                     let s = format!("{:?}", c.const_);
                     o.push(("s", J::s(s.chars().take(120).collect::<String>())));
